@@ -72,7 +72,7 @@ def observed_schedule(ctx, sched, orig, sim_time, workload, worker_pools):
         if any(m in msg for m in ENV_LIMIT_MARKERS):
             ctx.env_limit = msg[:200]
             raise
-        if name != "Chaos":
+        if name not in ("Chaos", "WC"):
             import traceback
 
             site = "?"
@@ -97,7 +97,7 @@ def observed_schedule(ctx, sched, orig, sim_time, workload, worker_pools):
     rec["n_cancel"] = sum(1 for p in plist if p.placement_type.name == "CANCEL_TASK")
     rec["runtime"] = _us(placements.runtime)
     ctx.invocations.append(rec)
-    if name != "Chaos":
+    if name not in ("Chaos", "WC"):
         monitor._safe(ctx, check_decision, sched, now, plist, offer, placements)
     else:
         for p in plist:
